@@ -132,7 +132,7 @@ def regex_of(letters):
 def probes_dir(W, profile):
     """probe templates are identical for all worlds and shared, except where the default schema
     (<template>.schema.json) is world specific"""
-    return f"{W}/probes" if profile == "schema" or SHARED is None else SHARED
+    return f"{W}/probes" if profile in ("schema", "template") or SHARED is None else SHARED
 
 
 SHARED = None
@@ -151,7 +151,7 @@ def conc(W, param, v, profile):
     if param == "template":
         return v if v in ("testify", "matryer") else f"file://{probes_dir(W, profile)}/P_{v}.templ"
     if param == "template-schema":
-        return f"file://{W}/schemas/s_{v}.json"
+        return f"file://{W}/schemas/s_{v}_{{{{.SrcPackageName}}}}.json"     # one schema file per level and source package
     if param in ("include-interface-regex", "exclude-interface-regex"):
         return regex_of(v)
     if param == "exclude-subpkg-regex":
@@ -172,6 +172,8 @@ def profile_of(case):
         return "template"
     if p == "template-data@matryer":
         return "matryer"
+    if p == "template-data@testify":
+        return "testify"
     if p in ("template-schema", "require-template-schema-exists"):
         return "schema"
     if p in ("all", "include-interface-regex", "exclude-interface-regex", "recursive", "exclude-subpkg-regex"):
@@ -230,7 +232,7 @@ def go_sources(T):
         src = [f"package {g}", "", f'import (\n\t"{MOD}/ty"\n\t"{MOD}/ty2"\n)', ""]
         for L in sorted(letters, key=lambda x: (x != "N", x)):       # N is declared (and processed) first
             nm = T.iface(g, L)
-            src.append(f"type {nm} interface {{ M{nm}(a ty.T0, b ty.Ur, c ty.Up, d ty.Ui, e ty.Ue, f ty2.V0) ty.T0 }}")
+            src.append(f"type {nm} interface {{ M{nm}(a ty.T0, b ty.Ur, c ty.Up, d ty.Ui, e ty.Ue, f ty2.V0) ty.T0; V{nm}(xs ...string) }}")
         files[f"{T.pkg_dir(g)}/{g}.go"] = "\n".join(src) + "\n"
     return files
 
@@ -250,7 +252,7 @@ def expected_mock(T, W, m, profile):
     if sch == DEFAULT:
         csch = (f"file://{probes_dir(W, profile)}/{ctempl}.templ" if ctempl.startswith("P_") else ctempl) + ".schema.json"
     else:
-        csch = f"file://{W}/schemas/s_{sch}.json"
+        csch = f"file://{W}/schemas/s_{sch}_{g}.json"
     rt = {}
     for pk, inner in unjson(e["replace-type"]["kv"]).items():
         for tn, leaf in unjson(inner["kv"]).items():
@@ -276,12 +278,12 @@ class World:
         self.dir = ctx.scratch / "worlds" / f"w{idx}"
         self.profile = profile_of(case)
 
-    def at(self, root, poison=None):
-        return Instance(self, str(root), poison)
+    def at(self, root, poison=None, reject=None):
+        return Instance(self, str(root), poison, reject)
 
 
 class Instance:
-    def __init__(self, w, W, poison):
+    def __init__(self, w, W, poison, reject=None):
         self.w, self.W, self.T = w, W, w.T
         T = w.T
         self.conf, self.env, self.args = build_config(T, W, w.case)
@@ -289,15 +291,15 @@ class Instance:
         self.mocks.sort(key=lambda m: (m["iface"], m["from"]))
         files = {"go.mod": GOMOD, ".mockery.yml": json.dumps(self.conf, indent=1)}
         files.update(GO_SOURCES[id(T)])
-        if w.profile == "schema":
+        if w.profile in ("schema", "template"):
             for n in T.nodeseq:
                 files[f"probes/P_{n}.templ"] = PROBE.replace("@ID@", "P_" + n)
-            files.update(self.schemas(poison))
+            files.update(self.schemas(poison, reject))
         self.files = files
 
-    def schemas(self, poison):
+    def schemas(self, poison, reject=None):
         """each schema file accepts exactly the sids of the mocks the contract expects to be validated against
-        it; a schema nobody is expected to consult does not exist"""
+        it; a schema nobody is expected to consult does not exist; `reject` names one file that rejects everything"""
         acc = {}
         for m in self.mocks:
             if not m["template"].startswith("P_"):
@@ -307,8 +309,11 @@ class Instance:
             sid = m["data"].get("sid")
             if m["require"] and sid is not None and sid != poison:
                 acc[rel].append(sid)
-        return {rel: json.dumps({"type": "object", "properties": {"sid": {"enum": sorted(set(s)) or ["<nobody>"]}}})
-                for rel, s in acc.items()}
+        out = {rel: json.dumps({"type": "object", "properties": {"sid": {"enum": sorted(set(s)) or ["<nobody>"]}}})
+               for rel, s in acc.items()}
+        if reject is not None:
+            out[reject.replace("file://" + self.W + "/", "")] = json.dumps({"not": {}})
+        return out
 
     def rel(self, m):
         return os.path.relpath(m["path"], self.W)
@@ -353,6 +358,7 @@ GO_SOURCES = {}
 # ----------------------------------------------------------------------------------------- observe
 SWITCH_SEEN = set()       # (matryer switch, observed polarity): both polarities must have been seen for the observer to count
 MATRYER_SWITCHES = ("with-resets", "stub-impl", "skip-ensure")
+SWITCHES = {"matryer": MATRYER_SWITCHES, "testify": ("unroll-variadic",)}
 SIG_RE = re.compile(r"^func \((\w+) \*(\w+)\) (M[A-Z0-9]+)\(([^)]*)\) ?([^{]*)\{", re.M)
 
 
@@ -398,6 +404,11 @@ def observe_file(path, text):
             name = mm.group(3)[1:]
             st = mm.group(2)
             flags = None
+            if templ == "testify":
+                vm = re.search(r"^func \(\w+ \*" + re.escape(st) + r"\) V" + re.escape(name) + r"\(xs \.\.\.string\)[^\n]*\{(.*?)^\}", text, re.M | re.S)
+                if vm:
+                    flags = {"unroll-variadic": re.search(r"Called\(xs\)", vm.group(1)) is None}
+                    SWITCH_SEEN.add(("unroll-variadic", flags["unroll-variadic"]))
             if templ == "matryer":
                 body = text[mm.end():]
                 body = body[:body.find("\n}\n") if "\n}\n" in body else len(body)]
@@ -554,7 +565,7 @@ def mock_diffs(inst, e, o):
         if eb != ob:
             out.append(("template-data(file)", e, {"mock-build-tags": eb}, {"mock-build-tags": ob}))
         if o.get("flags") is not None:
-            for k in MATRYER_SWITCHES:
+            for k in SWITCHES[f["template"]]:
                 want = bool(e["data"].get(k, False))
                 if want != o["flags"][k]:
                     out.append((f"template-data[{k}]", e, want,
@@ -622,7 +633,7 @@ def run_world_once(ctx, T, case, idx, quick):
     res = run_bin(ctx, inst.W, inst.args, inst.env, w.dir / "trace.ndjson")
     obs, changed = inst.observe()
     check_base_run(J, res, obs)
-    stats = {"runs": 1, "mocks": len(mocks), "focus": 0, "focus_force": 0, "focus_poison": 0}
+    stats = {"runs": 1, "mocks": len(mocks), "focus": 0, "focus_force": 0, "focus_poison": 0, "focus_reject": 0}
     ok = res.code == 0 and not J.bad
     if ok:
         # files that existed and whose mocks have force=true must have been replaced
@@ -645,7 +656,23 @@ def run_world_once(ctx, T, case, idx, quick):
             for m in prio(mocks, idx):
                 if m["template"].startswith("P_") and m["data"].get("sid") is not None:
                     focus.append(("poison", m))
-        focus = focus[:1] if quick else focus[:2]
+        if w.profile in ("schema", "template"):
+            # a schema that rejects everything, at the path some mock WITHOUT interface-level template-data (unlisted,
+            # discovered sub-package) or a built-in-template mock resolves to: the run fails iff a probe-template mock
+            # with require-template-schema-exists effective true is expected to consult exactly that file
+            seen = set()
+            for m in prio(mocks, idx):
+                if m["schema"].startswith("file://") and m["schema"] not in seen and \
+                        (m["data"].get("sid") is None or not m["template"].startswith("P_")):
+                    seen.add(m["schema"])
+                    focus.append(("reject", m))
+        if quick and focus:
+            focus = [focus[idx % len(focus)]]
+        elif not quick:
+            kinds = {}
+            for x in focus:
+                kinds.setdefault(x[0], []).append(x)
+            focus = [x for k in kinds for x in kinds[k][:2]]
         for i, (what, m) in enumerate(focus):
             stats["runs"] += 1
             stats["focus"] += 1
@@ -664,6 +691,22 @@ def run_world_once(ctx, T, case, idx, quick):
                 elif r2.code == 0 or now != fi.old_content(fm):
                     J.viol("effective-mismatch", "force-file-write", m, "existing file kept and exit != 0 (force-file-write effective false)",
                            {"exit": r2.code, "file_replaced": now != fi.old_content(fm)})
+            elif what == "reject":
+                fi = w.at(w.dir / f"f{i}")
+                fm = next(x for x in fi.mocks if x["iface"] == m["iface"] and x["from"] == m["from"])
+                fi = w.at(w.dir / f"f{i}", reject=fm["schema"])
+                fi.write()
+                users = [x["iface"] for x in fi.mocks if x["schema"] == fm["schema"] and x["require"] and x["template"].startswith("P_")]
+                r2 = run_bin(ctx, fi.W, fi.args, fi.env, None)
+                if r2.timed_out:
+                    raise Stalled(f"mockery timed out on a focus run of world {w.idx}")
+                if r2.panicked:
+                    J.viol("panic", "template-schema", m, "no panic", r2.brief())
+                elif bool(users) != (r2.code != 0):
+                    J.viol("effective-mismatch", "template-schema" if users else "require-template-schema-exists", m,
+                           {"schema_file_rejecting_everything": os.path.relpath(fm["schema"][7:], fi.W),
+                            "mocks_expected_to_be_validated_against_it": users, "expect": "exit != 0" if users else "exit 0"},
+                           {"exit": r2.code, "stderr_tail": (r2.err + r2.out)[-300:]})
             else:
                 fi = w.at(w.dir / f"f{i}", poison=m["data"]["sid"])
                 fi.write()
@@ -742,7 +785,7 @@ def project_trace(T, inst, case, idx, res):
         return m.group(1) if m else v if v in ("testify", "matryer") else "?" + v
 
     def a_schema(v, templ):
-        m = re.match("^file://" + re.escape(W) + r"/schemas/s_(\w+)\.json$", v)
+        m = re.match("^file://" + re.escape(W) + r"/schemas/s_([A-Za-z0-9]+)_[a-z0-9]+\.json$", v)
         return m.group(1) if m else DEFAULT if v == templ + ".schema.json" else "?" + v
 
     out = [{"ev": "reset", "world": idx, "cfg": {n: unjson(v) for n, v in case["cfg"].items()}}]
@@ -913,12 +956,13 @@ def vacuity(T, cases, stats):
     packed = [c for c in cases if c["desc"]["fam"] == "packed"]
     need = {"dir", "filename", "pkgname", "structname", "template-data", "replace-type", "template", "template-schema",
             "require-template-schema-exists", "formatter", "force-file-write", "all", "include-interface-regex",
-            "exclude-interface-regex", "recursive", "exclude-subpkg-regex", "log-level", "template-data@matryer"}
+            "exclude-interface-regex", "recursive", "exclude-subpkg-regex", "log-level", "template-data@matryer",
+            "template-data@testify"}
     have = {c["desc"]["param"] for c in chain}
     if not need <= have:
         raise MachineryError(f"vacuous: no chain world for {sorted(need - have)}")
     # every level of the target chain (and the default) is the winning one for some world of every scalar parameter
-    for p in sorted(need - {"template-data", "replace-type", "log-level", "template-data@matryer", "all", "include-interface-regex", "exclude-interface-regex",
+    for p in sorted(need - {"template-data", "replace-type", "log-level", "template-data@matryer", "template-data@testify", "all", "include-interface-regex", "exclude-interface-regex",
                             "recursive", "exclude-subpkg-regex"}):
         srcs = {m["src"][p] for c in chain if c["desc"]["param"] == p for m in c["mocks"] if m["from"] == "p1A1"}
         if not {"", "env", "root", "p1", "p1A", "p1A1"} <= srcs:
@@ -939,7 +983,7 @@ def vacuity(T, cases, stats):
         raise MachineryError(f"vacuous: only {len(packed)} packed worlds are well-formed")
     if not any(m["how"] == "subpkg" for c in cases for m in c["mocks"]) or not any(m["how"] == "unlisted" for c in cases for m in c["mocks"]):
         raise MachineryError("vacuous: no discovered sub-package / unlisted interface mocks")
-    if not stats["violations"] and (stats["focus_force"] == 0 or stats["focus_poison"] == 0):
+    if not stats["violations"] and (stats["focus_force"] == 0 or stats["focus_poison"] == 0 or stats["focus_reject"] == 0):
         raise MachineryError("vacuous: no focus run for force-file-write=false / schema validation")
 
 
@@ -984,7 +1028,7 @@ def run(ctx):
     if not debug:
         th.start()
     bad_all = []
-    stats = {"runs": 0, "mocks": 0, "focus": 0, "focus_force": 0, "focus_poison": 0}
+    stats = {"runs": 0, "mocks": 0, "focus": 0, "focus_force": 0, "focus_poison": 0, "focus_reject": 0}
     runs = []
     t0 = time.time()
     samples = []
@@ -1005,8 +1049,8 @@ def run(ctx):
                                 "file": os.path.relpath(m["path"], inst.W), "verdict": "observed = contract"})
     t_replay = time.time() - t0
     sw_bad = [x for x in bad_all if x[0].get("param", "").startswith("template-data[")]
-    if sw_bad and len(SWITCH_SEEN) < 2 * len(MATRYER_SWITCHES):
-        raise MachineryError(f"matryer switch observers saw only {sorted(SWITCH_SEEN)}: the template text changed, cannot observe")
+    if sw_bad and len(SWITCH_SEEN) < 2 * (len(MATRYER_SWITCHES) + 1):
+        raise MachineryError(f"built-in template switch observers saw only {sorted(SWITCH_SEEN)}: the template text changed, cannot observe")
     lvl_bad = [x for x in bad_all if x[0].get("param") == "log-level" and x[0]["kind"] == "effective-mismatch"]
     if lvl_bad and not LOG_FORMAT_SEEN:
         raise MachineryError("no run printed a recognisable zerolog console line (`... INF ...`): cannot observe log-level")
@@ -1078,6 +1122,7 @@ def run(ctx):
     ctx.cov["mocks_compared"] = stats["mocks"]
     ctx.cov["focus_runs_force_false"] = stats["focus_force"]
     ctx.cov["focus_runs_schema_poison"] = stats["focus_poison"]
+    ctx.cov["focus_runs_schema_reject_all"] = stats["focus_reject"]
     ctx.cov["distinct_nontrivial"] = len({json.dumps(c["desc"], sort_keys=True) for c in cases
                                           if c["desc"]["fam"] == "packed" or len(unjson(c["desc"]["S"]) or []) >= 1})
     ctx.cov["rule"] = ("one world per exported TLC state of ConfigTreeWorld.tla (parameter x level subset x value assignment x sharing mode, "
@@ -1092,8 +1137,10 @@ def run(ctx):
         "file-level template-data is the package level's effective map (as DESIGN C12 states); the statement itself only names per-mock merging",
         "mocks that share an output file but disagree on a per-file parameter, and sub-packages configured explicitly below a recursive "
         "package, are outside the contract (generated worlds avoid the first, the second is run but not judged)",
-        "template-schema / require-template-schema-exists are not observable for built-in templates (embedded schema) nor for mocks without "
-        "interface-level template-data (unlisted interfaces): there only the hook trace checks them",
+        "built-in templates use their embedded schema: template-schema / require-template-schema-exists must not disturb them (runs with a "
+        "rejecting or missing schema at the resolved path succeed) and the values handed to the generator are checked in the hook trace; "
+        "mocks without interface-level template-data (unlisted, discovered sub-packages) are checked by a reject-everything schema at "
+        "their resolved path (one schema file per level and source package)",
         "formatter is observed through the probe template only (gofmt vs goimports is invisible on built-in output)",
         "defaults are the ones of NewDefaultKoanf (dir {{.InterfaceDir}}, filename mocks_test.go, structname {{.Mock}}{{.InterfaceName}}, "
         "pkgname {{.SrcPackageName}}, template testify, template-schema {{.Template}}.schema.json, formatter goimports, "
